@@ -140,6 +140,11 @@ type c19Case struct {
 	Dep    sdk.Coin
 }
 
+// wrap returns 2^64 + v in decimal: a value far beyond every bound whose low 64 bits are v
+func wrap(v uint64) string {
+	return new(big.Int).Add(new(big.Int).Lsh(big.NewInt(1), 64), new(big.Int).SetUint64(v)).String()
+}
+
 func rv(s string) types.ResourceValue {
 	v, ok := sdk.NewIntFromString(s)
 	if !ok {
@@ -162,11 +167,12 @@ func CheckAdmissionGrid(thorough bool) (extraResult, error) {
 		{"units", []string{"1", "0", "2", u(uint64(cfg.MaxGroupUnits)), u(uint64(cfg.MaxGroupUnits) + 1)}},
 		// an additional, perfectly valid unit (cpu 200) next to the unit(s) under test: a negative or wrapped value can hide behind it in the group totals
 		{"extraunit", []string{"no", "yes"}},
-		{"cpu", []string{u64(uint64(cfg.MinUnitCPU)), u64(uint64(cfg.MinUnitCPU) - 1), "0", "400", "401", u64(uint64(cfg.MaxUnitCPU)), u64(uint64(cfg.MaxUnitCPU) + 1), "9223372036854775808", "18446744073709551615", "18446744073709551616", "-1", "-100", "nil"}},
-		{"memory", []string{u64(cfg.MinUnitMemory), u64(cfg.MinUnitMemory - 1), "0", u64(cfg.MaxUnitMemory), u64(cfg.MaxUnitMemory + 1), "18446744073709551615", "18446744073709551626", "-1", "-2097152", "nil"}},
-		{"storage", []string{u64(cfg.MinUnitStorage), u64(cfg.MinUnitStorage - 1), "0", u64(cfg.MaxUnitStorage), u64(cfg.MaxUnitStorage + 1), "18446744073709551615", "-1", "-10485760", "nil"}},
+		{"cpu", []string{u64(uint64(cfg.MinUnitCPU)), u64(uint64(cfg.MinUnitCPU) - 1), "0", "400", "401", u64(uint64(cfg.MaxUnitCPU)), u64(uint64(cfg.MaxUnitCPU) + 1), "9223372036854775808", "18446744073709551615", "18446744073709551616", wrap(uint64(cfg.MinUnitCPU)), "-1", "-100", "nil"}},
+		{"memory", []string{u64(cfg.MinUnitMemory), u64(cfg.MinUnitMemory - 1), "0", u64(cfg.MaxUnitMemory), u64(cfg.MaxUnitMemory + 1), "18446744073709551615", "18446744073709551626", wrap(cfg.MinUnitMemory), "-1", "-2097152", "nil"}},
+		{"storage", []string{u64(cfg.MinUnitStorage), u64(cfg.MinUnitStorage - 1), "0", u64(cfg.MaxUnitStorage), u64(cfg.MaxUnitStorage + 1), "18446744073709551615", wrap(cfg.MinUnitStorage), "-1", "-10485760", "nil"}},
 		{"count", []string{"1", "0", "2", "3", u64(uint64(cfg.MaxUnitCount)), u64(uint64(cfg.MaxUnitCount) + 1), "4294967295"}},
-		{"price", []string{"1", "0", u64(cfg.MaxUnitPrice), u64(cfg.MaxUnitPrice + 1), "18446744073709551616"}},
+		// 2^64 + a value within the bounds: a comparison made after truncating to 64 bits sees a legal value (round-9 seed C19-15)
+		{"price", []string{"1", "0", u64(cfg.MaxUnitPrice), u64(cfg.MaxUnitPrice + 1), "18446744073709551616", wrap(1), wrap(cfg.MaxUnitPrice)}},
 		{"pricedenom", []string{denom, "uatom"}},
 		{"version", []string{"32", "0", "31", "33"}},
 		{"deposit", []string{u64(minDep), u64(minDep - 1), "0"}},
